@@ -148,11 +148,14 @@ func (sc *Scenario) replay(hist []int) *h.Run {
 func (sc *Scenario) Key(r *h.Run) string {
 	var b strings.Builder
 	b.WriteString(r.Fingerprint())
+	// (the full spec text, options included: two variants of one function —
+	// with / without a callback, with a foreign location — share an instance
+	// name but are different registrations)
 	for _, c := range r.M.Ctors {
-		fmt.Fprintf(&b, "C %s %d %d\n", c.Inst, c.Home, c.Orig)
+		fmt.Fprintf(&b, "C %s %d %d %s\n", c.Inst, c.Home, c.Orig, h.FuncText(c.F))
 	}
 	for _, d := range r.M.Decos {
-		fmt.Fprintf(&b, "D %s %d\n", d.Inst, d.Scope)
+		fmt.Fprintf(&b, "D %s %d %s\n", d.Inst, d.Scope, h.FuncText(d.F))
 	}
 	fmt.Fprintf(&b, "P %v\n", r.M.Parent)
 	// execution counters of registered functions drive fault plans
